@@ -6,7 +6,9 @@ from .. import core, tok, selftest
 from ..core import Case
 
 PROP = "C04"
-NB = 4
+NB = 4          # entraited leaf traits B0..B3
+STD = {4: "::core::clone::Clone", 5: "::core::fmt::Debug"}     # plus two std traits as bounds 4 and 5
+ALLB = list(range(NB)) + sorted(STD)
 
 PRELUDE = "\n".join(
     ["#[::entrait::entrait] pub trait B%d { fn b%d(&self) -> i32; }" % (k, k) for k in range(NB)] + [
@@ -16,23 +18,30 @@ PRELUDE = "\n".join(
 
 def probe_types(declared):
     """name -> (definition, set of leaf traits implemented, sync, send)"""
-    allb = list(range(NB))
+    allb = list(ALLB)
     P = {}
     def mk(name, fields, bs):
-        impls = ", ".join("B%d b%d" % (k, k) for k in bs)
-        return "pub struct %s { %s }\nimplb!(%s; %s);" % (name, fields, name, impls)
+        impls = ", ".join("B%d b%d" % (k, k) for k in bs if k < NB)
+        derives = [d for k, d in ((4, "Clone"), (5, "Debug")) if k in bs]
+        head = ("#[derive(%s)] " % ", ".join(derives)) if derives else ""
+        return "%spub struct %s { %s }\nimplb!(%s; %s);" % (head, name, fields, name, impls)
     P["Full"] = (mk("Full", "pub x: u8", allb), set(allb), True, True)
     for k in sorted(set(declared)):
         bs = [b for b in allb if b != k]
         P["Miss%d" % k] = (mk("Miss%d" % k, "pub x: u8", bs), set(bs), True, True)
     P["FullNotSync"] = (mk("FullNotSync", "pub c: ::core::cell::Cell<u8>", allb), set(allb), False, True)
-    P["FullNotSend"] = (mk("FullNotSend", "pub g: ::core::option::Option<::std::sync::MutexGuard<'static, ()>>", allb), set(allb), True, False)
+    ns = [b for b in allb if b != 4]   # a MutexGuard cannot be cloned
+    P["FullNotSend"] = (mk("FullNotSend", "pub g: ::core::option::Option<::std::sync::MutexGuard<'static, ()>>", ns), set(ns), True, False)
     P["Nothing"] = (mk("Nothing", "pub x: u8", []), set(), True, True)
     return P
 
 
+def bname(b):
+    return STD.get(b, "B%d" % b)
+
+
 def bounds_text(bs):
-    return " + ".join("B%d" % b for b in bs)
+    return " + ".join(bname(b) for b in bs)
 
 
 def make_fn(rng, name, bs, byval, form):
@@ -82,7 +91,7 @@ def build_case(cid, rng, feature):
     forms = ["inline", "where", "split", "split2", "impl"]
     L = []
     if mode == "fn":
-        bs = rng.sample(range(NB), rng.randint(0, NB))
+        bs = rng.sample(ALLB, rng.randint(0, 5))
         form = rng.choice(forms)
         L.append("#[::entrait::entrait(%s)] /*@inv*/" % ", ".join(["pub Subj"] + opts))
         L.append(make_fn(rng, "subj", bs, byval, form))
@@ -97,7 +106,7 @@ def build_case(cid, rng, feature):
         anyval = False
         desc = []
         for i in range(n):
-            bs = rng.sample(range(NB), rng.randint(0, 3))
+            bs = rng.sample(ALLB, rng.randint(0, 3))
             form = rng.choice(forms)
             bv = rng.random() < 0.15
             anyval = anyval or bv
@@ -183,7 +192,7 @@ def header_check(c, rep):
                 continue
             for b in tok.render(pred[ci + 1:]).split("+"):
                 got.append(b.strip())
-    want_b = sorted(["B%d" % b for b in m["declared"]] + [":: core :: marker :: Sized"] * sum(1 for d in m["desc"] if d[0] == "impl" and not d[1]))
+    want_b = sorted([bname(b).replace("::", " :: ").strip() for b in m["declared"]] + [":: core :: marker :: Sized"] * sum(1 for d in m["desc"] if d[0] == "impl" and not d[1]))
     if sorted(got) != want_b:
         rep.violation(c.id, "where-bounds", "impl where-clause bounds %s, declared %s" % (sorted(got), want_b), {"header": txt})
     rep.bump("impl_headers_checked")
